@@ -420,8 +420,14 @@ func MulticodeDecodeMultiple(s []byte) []*DenseGraph {
 	var numberOfVerticesLeft byte
 	for i := 0; i < len(s); i++ {
 		if numberOfVerticesLeft == 0 {
+			if s[i] <= 1 {
+				//A graph on 0 or 1 vertices is a single byte with no neighbour lists.
+				graphs = append(graphs, MulticodeDecode(s[i:i+1]))
+				continue
+			}
 			numberOfVerticesLeft = s[i] - 1
 			startOfGraph = i
+			continue
 		}
 		if s[i] == 0 {
 			numberOfVerticesLeft--
